@@ -51,6 +51,16 @@ def make_scene(seed, kind):
             src(x + d * math.cos(t), y + d * math.sin(t), a1 * rng.uniform(0.5, 1.0))
             if rng.random() < 0.3:
                 src(x - d * math.cos(t), y - d * math.sin(t), a1 * rng.uniform(0.4, 0.9))
+    elif kind == "psfmap":
+        # blends on a psf map whose cells alternate between two psf sizes (20 % apart) every W/8 pixels: several
+        # blended islands straddle a cell border
+        for k in range(rng.randint(5, 8)):
+            y = 14 + k * (H - 28) / 7.0 + rng.uniform(-1, 1)
+            x = rng.uniform(14, W - 14)
+            a1 = rng.uniform(20, 50)
+            d = rng.uniform(1.2, 1.7) * BEAM_PX
+            src(x - d / 2.0, y, a1)
+            src(x + d / 2.0, y + rng.uniform(-0.5, 0.5), a1 * rng.uniform(0.6, 1.0))
     elif kind == "tiny":
         for _ in range(rng.randint(4, 9)):
             # narrow faint peaks: islands of 1-6 pixels
@@ -95,7 +105,19 @@ def make_scene(seed, kind):
     if kind == "empty":
         kw["innerclip"] = 9
         kw["outerclip"] = 8
-    return {"shape": shape, "header": h, "img": img, "comps": comps, "kw": kw, "kind": kind, "seed": seed}
+    sc = {"shape": shape, "header": h, "img": img, "comps": comps, "kw": kw, "kind": kind, "seed": seed}
+    if kind == "psfmap":
+        from astropy.io import fits
+        ph = fits.Header()
+        ph["CTYPE1"], ph["CTYPE2"] = h["CTYPE1"], h["CTYPE2"]
+        ph["CRVAL1"], ph["CRVAL2"] = h["CRVAL1"], h["CRVAL2"]
+        ph["CRPIX1"], ph["CRPIX2"] = 4.5, 1.0
+        ph["CDELT1"], ph["CDELT2"] = h["CDELT1"] * W / 8.0, h["CDELT2"] * H
+        cube = np.zeros((3, 1, 8), dtype=np.float32)
+        cube[0, 0, :] = [beam / 3600.0 * (1.2 if c % 2 else 1.0) for c in range(8)]
+        cube[1, 0, :] = [beam / 3600.0 * (1.1 if c % 2 else 1.0) for c in range(8)]
+        sc["psfmap"] = (cube, ph)
+    return sc
 
 
 _RA = re.compile(r"^(\d+):(\d+):(\d+)\.(\d+)$")
